@@ -809,6 +809,10 @@ func (c *Client) Call(ctx context.Context, procedure string, options wamp.Dict, 
 
 	err := c.prepareCallPayloadMessage(message, options, args, kwargs)
 	if err != nil {
+		if progcb != nil {
+			// Let the goroutine that serves the progress handler exit.
+			close(progChan)
+		}
 		return nil, err
 	}
 	c.expectReply(id)
@@ -911,6 +915,10 @@ func (c *Client) CallProgressive(ctx context.Context, procedure string, sendProg
 
 	err = c.prepareCallPayloadMessage(message, options, args, kwargs)
 	if err != nil {
+		if progcb != nil {
+			// Let the goroutine that serves the progress handler exit.
+			close(progChan)
+		}
 		return nil, err
 	}
 	c.expectReply(id)
